@@ -1,7 +1,7 @@
 (** C07 - corollaries stated by Props/C07.v: spelling independence of the verdict,
-    member-order independence at each level, and the string layer of the known
-    finding (rocfl's borrowed reader against the conforming decoder). *)
-From Rocfl Require Import Base.Bytes Model.Json Model.JsonValue Model.Validate Model.ValidateSpec Model.KnownC07
+    member-order independence at each level, and rocfl's reader of string tokens (the
+    current one accepts every legal spelling; the one before fix 2f36fc5 did not). *)
+From Rocfl Require Import Base.Bytes Model.Json Model.JsonValue Model.Validate Model.ValidateSpec Model.ValidateReader
   Proofs.BytesFacts Proofs.JsonFacts Proofs.JsonValueFacts Proofs.ValidateFacts Proofs.ValidateSound Proofs.ValidatePerm.
 From Coq Require Import Permutation.
 Open Scope N_scope.
@@ -42,24 +42,31 @@ Lemma key_order_block3 sv m1 k n1 k2 o1 k3 m m' o2 n2 m2 :
   = inv_errors sv (JObj (m1 ++ (k, JObj (n1 ++ (k2, JObj (o1 ++ (k3, JObj m') :: o2)) :: n2)) :: m2)).
 Proof. intros H. apply inv_errors_perm. do 3 apply jv_perm_member. apply jv_perm_top. assumption. Qed.
 
-(** * string layer of the known finding *)
+(** * rocfl's reader of string tokens *)
 
-(** rocfl's validator reads a string position exactly as the conforming decoder unless the
-    position is borrowed and the token has a backslash *)
-Lemma reader_agrees_outside_class p t :
-  (val_pos_borrowed p && has_escape t) = false -> validator_read_pos p t = decode_string t.
+(** the current reader (Cow<str> / String at every position) gives the string for every legal spelling *)
+Lemma validator_reads_every_spelling t s :
+  spells t s -> utf8_valid s = true -> validator_read (DQ :: t ++ [DQ]) = Some s.
+Proof. unfold validator_read. apply decode_any_spelling. Qed.
+
+(** in particular for what serde_json itself writes (the inventories rocfl commits) *)
+Lemma validator_reads_serde_escape s : utf8_valid s = true -> validator_read (serde_escape s) = Some s.
+Proof. unfold validator_read. apply decode_string_escape. Qed.
+
+(** and it reads nothing but legal tokens: whatever it returns is what the conforming decoder returns *)
+Lemma validator_read_conforming t : validator_read t = decode_string t.
+Proof. reflexivity. Qed.
+
+(** historical note: the reader before fix 2f36fc5 (borrowed &str) refused every token with a backslash,
+    e.g. the legal spelling ark:123\/abc of an object id *)
+Lemma validator_read_before_fix_refused t : has_escape t = true -> validator_read_before_fix t = None.
+Proof. unfold validator_read_before_fix, read_borrowed. intros ->. destruct (decode_string t); reflexivity. Qed.
+
+Lemma validator_read_before_fix_witness :
+  exists t s, spells t s /\ utf8_valid s = true /\ validator_read (DQ :: t ++ [DQ]) = Some s
+              /\ validator_read_before_fix (DQ :: t ++ [DQ]) = None.
 Proof.
-  unfold validator_read_pos, read_with, read_borrowed. destruct (val_pos_borrowed p); cbn [andb]; [|reflexivity].
-  intros ->. destruct (decode_string t); reflexivity.
+  exists (b "ark:123" ++ [BSL; SL] ++ b "abc"), (b "ark:123/abc"). split.
+  - change (b "ark:123" ++ [BSL; SL] ++ b "abc") with (esc_slash (b "ark:123/abc")). apply slash_escape_spelling.
+  - vm_compute. repeat split.
 Qed.
-
-Lemma reader_rejects_inside_class p t :
-  val_pos_borrowed p = true -> has_escape t = true -> validator_read_pos p t = None.
-Proof.
-  unfold validator_read_pos, read_with, read_borrowed. intros -> ->. destruct (decode_string t); reflexivity.
-Qed.
-
-(** a legal spelling of an object id that the conforming decoder reads and rocfl's reader refuses *)
-Lemma reader_refuted :
-  exists p t s, decode_string t = Some s /\ utf8_valid s = true /\ validator_read_pos p t = None.
-Proof. exists PId, (DQ :: b "ark:123" ++ [BSL; SL] ++ b "abc" ++ [DQ]), (b "ark:123/abc"). vm_compute. repeat split. Qed.
